@@ -2,7 +2,6 @@ package props
 
 import (
 	"fmt"
-	"go/ast"
 	"sort"
 	"strings"
 
@@ -119,6 +118,12 @@ type engineFix struct {
 	idb     map[string]bool
 	invBad  string // first violation of "delta is a subset of store when a delta rule runs"
 	clauses int
+	trace   []string // rule index / delta position of every clause evaluation, in order
+	// temporal mode: every fact lives in the temporal store under one fixed interval, so the
+	// same abstract programs exercise the temporal store / temporal delta store bookkeeping.
+	temporal bool
+	iv       *ordabs.Obj
+	tAdds    []string // "store-name:fact@interval-id" for every temporal Add
 }
 
 func (e *engineFix) newStore(name string) *ordabs.Obj {
@@ -205,7 +210,11 @@ func storeStubs(e *engineFix, names ...string) {
 // newEngineFix prepares an interpreter in which (*engine).eval can be evaluated
 // over an abstract program; the premise join is replaced by the program's own semantics.
 func newEngineFix(c *core.Ctx, rule string, prog absProgram, createdLimit int64) *engineFix {
-	e := &engineFix{c: c, in: ordabs.New(c.Prog), k: &astKit{c: c, ok: true}, ck: newConstKit(c, rule), stores: map[*ordabs.Obj]factSet{}, prog: prog, idb: map[string]bool{}}
+	return newEngineFixMode(c, rule, prog, createdLimit, false)
+}
+
+func newEngineFixMode(c *core.Ctx, rule string, prog absProgram, createdLimit int64, temporal bool) *engineFix {
+	e := &engineFix{c: c, in: ordabs.New(c.Prog), k: &astKit{c: c, ok: true}, ck: newConstKit(c, rule), stores: map[*ordabs.Obj]factSet{}, prog: prog, idb: map[string]bool{}, temporal: temporal}
 	if !e.ck.ok {
 		return nil
 	}
@@ -223,8 +232,55 @@ func newEngineFix(c *core.Ctx, rule string, prog absProgram, createdLimit int64)
 	}
 	e.in.Stubs["ast.Atom.String"] = e.in.Stubs["ast.Clause.String"]
 	store := e.newStore("store")
-	for _, f := range prog.facts {
-		e.stores[store][f] = true
+	var tstore *ordabs.Obj
+	if temporal {
+		ivr := e.k.zero("ast", "Interval")
+		ivr.Fields["__id"] = "iv"
+		e.iv = &ordabs.Obj{Name: "iv", Fields: ivr.Fields, T: "ast.Interval"}
+		tstore = e.newStore("temporal")
+		for _, f := range prog.facts {
+			e.stores[tstore][f] = true
+		}
+		e.in.Stubs["factstore.NewTemporalStore"] = func(in *ordabs.Interp, _ ordabs.Value, _ []ordabs.Value) ([]ordabs.Value, error) {
+			return []ordabs.Value{e.newStore("tdelta")}, nil
+		}
+		for _, n := range []string{"factstore.TemporalFactStore", "factstore.ReadOnlyTemporalFactStore", "factstore.TemporalStore"} {
+			e.in.Stubs[n+".Add"] = func(in *ordabs.Interp, recv ordabs.Value, args []ordabs.Value) ([]ordabs.Value, error) {
+				o, _ := recv.(*ordabs.Obj)
+				s := e.stores[o]
+				if s == nil {
+					return nil, &ordabs.Unsupported{What: "temporal Add on an unknown store"}
+				}
+				id := "?"
+				switch x := args[1].(type) {
+				case *ordabs.Rec:
+					id = fmt.Sprint(x.Fields["__id"])
+				case *ordabs.Obj:
+					if x != nil {
+						id = fmt.Sprint(x.Fields["__id"])
+					}
+				}
+				f := factOf(args[0])
+				e.tAdds = append(e.tAdds, o.Name+":"+f+"@"+id)
+				if s[f] {
+					return []ordabs.Value{false, nil}, nil
+				}
+				s[f] = true
+				return []ordabs.Value{true, nil}, nil
+			}
+			e.in.Stubs[n+".EstimateFactCount"] = func(in *ordabs.Interp, recv ordabs.Value, args []ordabs.Value) ([]ordabs.Value, error) {
+				o, _ := recv.(*ordabs.Obj)
+				s := e.stores[o]
+				if s == nil {
+					return nil, &ordabs.Unsupported{What: "EstimateFactCount on an unknown temporal store"}
+				}
+				return []ordabs.Value{int64(len(s))}, nil
+			}
+		}
+	} else {
+		for _, f := range prog.facts {
+			e.stores[store][f] = true
+		}
 	}
 	var rules []ordabs.Value
 	for i := range prog.rules {
@@ -238,30 +294,25 @@ func newEngineFix(c *core.Ctx, rule string, prog absProgram, createdLimit int64)
 	if createdLimit > 0 {
 		opts.Fields["totalFactLimit"] = createdLimit + int64(len(prog.facts))
 	}
-	opts.Fields["predicateAllowList"] = &ordabs.Obj{Name: "allowlist", Opaque: true}
+	opts.Fields["predicateAllowList"] = ordabs.NewVarPtr(&ordabs.Stub{Name: "allowAll", Fn: func(in *ordabs.Interp, args []ordabs.Value) ([]ordabs.Value, error) {
+		return []ordabs.Value{true}, nil
+	}})
 	eng := e.k.zero("engine", "engine")
 	if !e.k.ok {
 		c.Unres(rule, "engine.engine", 0, "anchor-unresolved: cannot model the engine's types")
 		return nil
 	}
 	eng.Fields["store"] = store
+	if temporal {
+		eng.Fields["temporalStore"] = tstore
+		eng.Fields["temporalDeltaStore"] = e.newStore("tdelta0")
+	}
 	eng.Fields["deltaStore"] = e.newStore("delta0")
 	eng.Fields["programInfo"] = &ordabs.Obj{Name: "programInfo", Fields: pi.Fields}
 	eng.Fields["options"] = opts
 	eng.Fields["predToRules"] = ordabs.NewMap()
 	eng.Fields["predToDecl"] = ordabs.NewMap()
 	e.engine = &ordabs.Obj{Name: "engine", Fields: eng.Fields}
-	allow := &ordabs.Stub{Name: "allowAll", Fn: func(in *ordabs.Interp, args []ordabs.Value) ([]ordabs.Value, error) {
-		return []ordabs.Value{true}, nil
-	}}
-	e.in.Leaf = func(x ast.Expr) (ordabs.Value, bool) {
-		if st, ok := x.(*ast.StarExpr); ok {
-			if sel, ok := ast.Unparen(st.X).(*ast.SelectorExpr); ok && sel.Sel.Name == "predicateAllowList" {
-				return allow, true
-			}
-		}
-		return nil, false
-	}
 	e.in.Stubs["engine.engine.mergeDelta"] = func(in *ordabs.Interp, recv ordabs.Value, _ []ordabs.Value) ([]ordabs.Value, error) {
 		eo := recv.(*ordabs.Obj)
 		st := e.stores[eo.Fields["store"].(*ordabs.Obj)]
@@ -307,7 +358,20 @@ func newEngineFix(c *core.Ctx, rule string, prog absProgram, createdLimit int64)
 		}
 		st := e.stores[eo.Fields["store"].(*ordabs.Obj)]
 		dl := e.stores[eo.Fields["deltaStore"].(*ordabs.Obj)]
+		if e.temporal {
+			ts, _ := eo.Fields["temporalStore"].(*ordabs.Obj)
+			td, _ := eo.Fields["temporalDeltaStore"].(*ordabs.Obj)
+			if ts == nil || e.stores[ts] == nil {
+				return nil, &ordabs.Unsupported{What: "the engine lost its temporal store"}
+			}
+			st = e.stores[ts]
+			dl = factSet{}
+			if td != nil && e.stores[td] != nil {
+				dl = e.stores[td]
+			}
+		}
 		e.clauses++
+		e.trace = append(e.trace, fmt.Sprintf("%d/%d", idx, dp))
 		if dp >= 0 {
 			for f := range dl {
 				if !st[f] && e.invBad == "" {
@@ -320,6 +384,9 @@ func newEngineFix(c *core.Ctx, rule string, prog absProgram, createdLimit int64)
 			z, _ := ordabs.ZeroOf(dtf)
 			r := z.(*ordabs.Rec)
 			r.Fields["Atom"] = e.atomOf(f)
+			if e.temporal {
+				r.Fields["Interval"] = e.iv
+			}
 			out = append(out, r)
 		}
 		return []ordabs.Value{&ordabs.Slice{Elems: &out}, nil}, nil
@@ -339,7 +406,16 @@ func (e *engineFix) runEval(f *core.Func, fuel int) (final factSet, isErr, retur
 		return nil, false, false, err
 	}
 	_, isErr = out[0].(ordabs.ErrVal)
-	return e.stores[e.engine.Fields["store"].(*ordabs.Obj)], isErr, true, nil
+	final = factSet{}
+	for f := range e.stores[e.engine.Fields["store"].(*ordabs.Obj)] {
+		final[f] = true
+	}
+	if ts, _ := e.engine.Fields["temporalStore"].(*ordabs.Obj); ts != nil {
+		for f := range e.stores[ts] {
+			final[f] = true
+		}
+	}
+	return final, isErr, true, nil
 }
 
 func diffSets(got, want factSet) (missing, extra []string) {
